@@ -297,7 +297,7 @@ func parent(id, tier string) int {
 	}
 	deadlineS := int64(540)
 	if tier == "thorough" {
-		deadlineS = 2400
+		deadlineS = 3300
 	}
 	deadlineS = envInt("VERIF_DEADLINE_S", deadlineS)
 	mem := p.MemKB
